@@ -347,7 +347,80 @@ func countMaps(x interface{}) int {
 	return n
 }
 
+// intScalars returns a copy of x whose integer-valued float64 SCALARS (map
+// values and array elements alike) become Go ints (wide=false) or int64s.
+func intScalars(x interface{}, wide bool) (interface{}, bool) {
+	changed := false
+	var walk func(x interface{}) interface{}
+	walk = func(x interface{}) interface{} {
+		switch v := x.(type) {
+		case map[string]interface{}:
+			m := make(map[string]interface{}, len(v))
+			for k, y := range v {
+				m[k] = walk(y)
+			}
+			return m
+		case []interface{}:
+			a := make([]interface{}, len(v))
+			for i, y := range v {
+				a[i] = walk(y)
+			}
+			return a
+		case float64:
+			if v == float64(int(v)) {
+				changed = true
+				if wide {
+					return int64(v)
+				}
+				return int(v)
+			}
+		}
+		return x
+	}
+	y := walk(x)
+	return y, changed
+}
+
+// c05NumberTypes: the same numbers as Go ints on one side only (a caller that
+// builds patterns or facts in Go rather than from JSON).
+func c05NumberTypes(w *lib.Worker, ctx *core.Context, p, d map[string]interface{}, expS []string) {
+	for _, v := range []struct {
+		name       string
+		pInt, dInt int // 0 = as is, 1 = int, 2 = int64
+	}{{"pattern-ints", 1, 0}, {"datum-ints", 0, 1}, {"pattern-int64-datum-int", 2, 1}} {
+		dp, dd := interface{}(p), interface{}(d)
+		any := false
+		if v.pInt > 0 {
+			var ch bool
+			dp, ch = intScalars(p, v.pInt == 2)
+			any = any || ch
+		}
+		if v.dInt > 0 {
+			var ch bool
+			dd, ch = intScalars(d, v.dInt == 2)
+			any = any || ch
+		}
+		if !any {
+			continue
+		}
+		got, err := core.Matches(ctx, dp, dd)
+		w.Eval(1)
+		w.Count("number_typed_variants", 1)
+		gotS := implSet(got)
+		if err != nil || strings.Join(gotS, "\n") != strings.Join(expS, "\n") {
+			et := ""
+			if err != nil {
+				et = err.Error()
+			}
+			w.Violation(lib.Violation{Scenario: "decorations", Signature: "C05/go-int-input-differs-from-json-form:" + v.name,
+				Summary: fmt.Sprintf("Matches(%#v, %#v) = %v err=%q but the plain JSON form gives %v", dp, dd, gotS, et, expS),
+				Replay:  c05case{p, d, nil, 0, "numbers as Go ints: " + v.name}, Expected: expS, Observed: gotS})
+		}
+	}
+}
+
 func c05Decorations(w *lib.Worker, ctx *core.Context, p, d map[string]interface{}, expS []string) {
+	c05NumberTypes(w, ctx, p, d, expS)
 	np, nd := countMaps(p), countMaps(d)
 	k := np + nd
 	if k > 6 {
